@@ -396,9 +396,13 @@ func c04Correspondence(c *hx.Ctx) {
 	if c04Extra != nil { // round-2 hooks (c04corr2.go, build tag c04hooks2)
 		c04Extra(c)
 	}
+	if c04GlueExtra != nil { // round-5 glue model (c04glue.go, build tags c04hooks2 + c16pieces)
+		c04GlueExtra(c)
+	}
 }
 
 var c04Extra func(*hx.Ctx)
+var c04GlueExtra func(*hx.Ctx)
 var c19Extra func(*hx.Ctx)
 var c19PosExtra func(*hx.Ctx)
 
